@@ -94,3 +94,16 @@ PROPS["C06"] = dict(level="proof", gens=["go2ir"],
                                 "the limb-level obligations hold for both limb backends against the same specifications (same right-hand sides), the assembly entry points are "
                                 "compared with the IR programs of the generic source through the abstraction function (T0 @-entries)")
 NOT_YET = {}
+
+
+LEVEL_TEXT = {
+    "proof": "Lean 4 theorems about a model (listed by name, rebuilt and axiom-audited on every run) carry the stated part of the property for all inputs/histories; "
+             "the model is tied to the current source by regeneration (go2ir) and/or differential correspondence with the real code in 3-4 build configurations. "
+             "DESIGN.md section 6 says which clauses are theorems and which are carried by correspondence only.",
+    "translation_validation": "the real code is compared with the executable Lean Spec/Model on structured boundary-heavy request streams in 3-4 build configurations; "
+                              "the theorems for this property are still being written (DESIGN.md section 6), so no proof is claimed yet.",
+    "other": "symbolic execution of the real SSA with all secret inputs symbolic (support, not proof) + kernel-checked outcome table + branch-free IR by construction; see DESIGN.md section 6/7 (C08).",
+}
+for _p, _c in PROPS.items():
+    _c.setdefault("level_text", LEVEL_TEXT[_c["level"]])
+    _c.setdefault("design_ref", "DESIGN.md section 6 (%s), section 7 (trusted base and limits)" % _p)
